@@ -27,7 +27,9 @@ def site_lines():
 
 SCENARIOS = ['main-edit-with-dir-override', 'dir-edit', 'permissive-default-rule', 'deprecated-defaults',
              'dir-edit-no-overwrite', 'deprecated-main-emptied', 'deprecated-dir-override-edit', 'two-dirs-later-edit',
-             'main-edit-referring-default']
+             'main-edit-referring-default', 'permissive-default-drop-override']
+# the two-switch family also has a scenario in which two directories change in the same deployment step
+TWO_SWITCH_SCENARIOS = SCENARIOS + ['two-dirs-both-edit']
 
 
 def _rm_root(root):
@@ -103,6 +105,20 @@ def build(scn, root):
 
         def change():
             fs.write('second.d', 'z.yaml', {'q': 'role:dir_new'}, 'json')
+    elif scn == 'two-dirs-both-edit':
+        fs.write_main({'p': 'role:main', 'q': 'role:main_q'}, 'json')
+        fs.write('policy.d', 'o.yaml', {'p': 'role:dir_old'}, 'json')
+        fs.write('second.d', 'z.yaml', {'q': 'role:dir_old'}, 'json')
+
+        def change():
+            fs.write('policy.d', 'o.yaml', {'p': 'role:dir_new'}, 'json')
+            fs.write('second.d', 'z.yaml', {'q': 'role:dir_new'}, 'json')
+    elif scn == 'permissive-default-drop-override':
+        # the operator's override of a REGISTERED default is dropped from the policy file, whose default rule allows
+        fs.write_main({'default': '@', 'reg:a': 'role:main_old', 'p': 'role:main'}, 'json')
+
+        def change():
+            fs.write_main({'default': '@', 'p': 'role:main'}, 'json')
     elif scn == 'permissive-default-rule':
         fs.write_main({'default': '@', 'p': 'role:main_old'}, 'json')
 
@@ -192,6 +208,64 @@ def one_switch(scn, root, k, pkg, sites):
     ta.join()
     after = probe(e, probes)
     return res, phase, s.count, after
+
+
+def two_switch(scn, root, k, pkg, sites):
+    """thread A has COMPLETED its own load step and is paused before it looks its rule up; thread B then enters its load step
+    (with the files as A saw them, so there is nothing to do) and is paused before its k-th line; A decides; B goes on.
+    -> (A's decisions, B's last write site, lines B ran)"""
+    import linecache
+    fs, e, change, probes = build(scn, root)
+    change()
+    st = {'done': False}
+    paused_a, resume_a = threading.Event(), threading.Event()
+
+    def tracer_a(frame, event, arg):
+        if not frame.f_code.co_filename.startswith(pkg):
+            return None
+
+        def local(frame, event, arg):
+            if event == 'line' and not st['done']:
+                # (check objects are also CONSTRUCTED in _checks.py, during the load step: only evaluation counts)
+                if (os.path.basename(frame.f_code.co_filename) == '_checks.py' and
+                        frame.f_code.co_name in ('_check', '__call__')) or (
+                        frame.f_code.co_name == 'enforce' and
+                        '[rule]' in linecache.getline(frame.f_code.co_filename, frame.f_lineno)):
+                    st['done'] = True
+                    paused_a.set()
+                    resume_a.wait()
+            return local
+        return local
+    out = {}
+
+    def a():
+        sys.settrace(tracer_a)
+        try:
+            out['res'] = probe(e, probes)
+        finally:
+            sys.settrace(None)
+            paused_a.set()
+    ta = threading.Thread(target=a)
+    ta.start()
+    paused_a.wait()
+    s = Sched(k, pkg, sites)
+
+    def b():
+        sys.settrace(s.tracer)
+        try:
+            e.load_rules()
+        finally:
+            sys.settrace(None)
+            s.paused.set()
+    tb = threading.Thread(target=b)
+    tb.start()
+    s.paused.wait()
+    resume_a.set()
+    ta.join()
+    phase = s.last_site
+    s.resume.set()
+    tb.join()
+    return out.get('res'), phase, s.count
 
 
 REF_OLD = {'p': 'rule:h', 'h': 'role:o', 'q': 'role:main_q'}
@@ -335,12 +409,29 @@ def run(run, binfo):
                           {'kind': 'failing-input', 'suite': 'spec-c20-decider',
                            'input': {'scenario': 'ref-edit', 'k': k, 'phase': phase}, 'expected': False, 'observed': r})
         run.nontrivial.add(('decider', k))
+    # ---- two switches: A finished its reload and is about to decide, B enters its own (idle) load step, A decides
+    for scn in TWO_SWITCH_SCENARIOS:
+        old, new = settled(scn, root)
+        _, _, total = two_switch(scn, root, 10 ** 9, pkg, sites)
+        run.count('lines_in_idle_load:' + scn, total)
+        for k in range(1, total + 1):
+            res, phase, _ = two_switch(scn, root, k, pkg, sites)
+            run.evaluations += 1
+            if res != old and res != new:
+                run.violation('mixed-two-switch:%s:%s' % (scn, phase),
+                              'scenario %s: a thread that had completed its own reload was overtaken, before it looked its rule '
+                              'up, by another thread\'s load step paused at line-point %d (after write site %r): its decisions '
+                              'are neither the old nor the new policy' % (scn, k, phase),
+                              {'kind': 'failing-input', 'suite': 'spec-c20-two-switch',
+                               'input': {'scenario': scn, 'k': k, 'phase': phase},
+                               'expected': {'old': old, 'new': new}, 'observed': res})
+            run.nontrivial.add(('two-switch', scn, k))
     run.extra['mixed_phases'] = {('%s | %s' % k): len(v) for k, v in sorted(mixed.items())}
     run.sample({'scenario': SCENARIOS[0], 'k': 100})
     run.rule = ('reload scenarios (%s); the reloading thread is preempted at every%s source-line boundary inside oslo_policy '
                 '(sys.settrace), the other thread then takes 56 decisions (4 names x 14 roles, each through its own implicit '
                 'load_rules) and the reloader resumes; decisions compared with the settled old and new policies; a mixed decision '
-                'is keyed by (scenario, last shared-state write site executed by the reloader); and the deciding thread preempted at every line of its own enforce call while a whole reload goes by (keyed by whether the definition of the enforced rule had already been fetched). non-trivial = preemption points'
+                'is keyed by (scenario, last shared-state write site executed by the reloader); the two-switch family (a thread that completed its reload, paused before its lookup, overtaken by the idle load step of another thread at every line of that step); and the deciding thread preempted at every line of its own enforce call while a whole reload goes by (keyed by whether the definition of the enforced rule had already been fetched). non-trivial = preemption points'
                 % (', '.join(SCENARIOS), '' if tier == 'thorough' else ' third'))
     _rm_root(root)
 
@@ -356,6 +447,11 @@ def replay(run, rep):
         print('phase', phase, 'decision', r)
         return r is False
     old, new = settled(inp['scenario'], root)
+    if rep.get('suite') == 'spec-c20-two-switch':
+        res, phase, _ = two_switch(inp['scenario'], root, inp['k'], pkg, site_lines())
+        _rm_root(root)
+        print('phase', phase, 'mixed' if res not in (old, new) else 'old-or-new')
+        return res in (old, new)
     res, phase, _, _ = one_switch(inp['scenario'], root, inp['k'], pkg, site_lines())
     _rm_root(root)
     print('phase', phase, 'mixed' if (res is not None and res not in (old, new)) else 'old-or-new')
